@@ -436,8 +436,20 @@ def check(ctx):
                     and keys_t[2][0][1][2][0] == ("a", n("self"), "_jitter_key")
                     and cur_t[0] == "s" and cur_t[2] == pos_key
                     and cur_t[1][0] == "call" and cur_t[1][1][2] == "extract_position")
+            # every chain is jittered from ITS OWN current value: the position comes from
+            # the per-chain states that are updated afterwards, and both the keys and the
+            # values are mapped over the chain axis
+            ups = [t for t, _, _ in rb.calls if t[0] == "call" and t[1][0] == "call"
+                   and is_call(t[1], "jax.vmap") and t[1][2]
+                   and t[1][2][0][0] == "a" and t[1][2][0][2] == "update_state"]
+            ia = kw(val[1], "in_axes", 1)
+            ok_j = (ok_j and len(ups) == 1 and len(ups[0][2]) == 2
+                    and len(cur_t[1][2]) == 2 and cur_t[1][2][1] == ups[0][2][1]
+                    and ia in (None, c(0), ("tuple", (c(0), c(0))))
+                    and kw(ups[0][1], "in_axes", 1) in (None, c(0), ("tuple", (c(0), c(0)))))
     ctx.ob("C10.R6", build, "each jitter function gets its own key, split per chain, and "
-                            "is applied to the current value of its own position key",
+                            "is applied, chain by chain, to the chain's own current value of "
+                            "its position key",
            ok_j, detail=short(jp[0][1]) if jp else f"{len(jp)} jitter stores",
            stmt="jitter wiring")
     siv = method(repo, eb, "set_initial_values")
